@@ -234,13 +234,15 @@ func harnesses(r *fw.Run) []fw.HarnessSpec {
 	add := func(name string, bound int, f func(c *enum.Ctx)) {
 		hs = append(hs, fw.HarnessSpec{Harness: enum.Harness{Name: name, Bound: bound, Run: f, Workers: 1}})
 	}
-	subs := []*uint32{nil, u32(0), u32(1), u32(1<<32 - 1)}
+	// nil = the version's recommended default; 698983191 is the documented default constant given explicitly (it is the
+	// effective default only in workchain 0), 698983190 what the default becomes in workchain -1
+	subs := []*uint32{nil, u32(0), u32(1), u32(1<<32 - 1), u32(698983191), u32(698983190)}
 	nets := []*int32{nil, i32(wallet.TestnetGlobalID), i32(0)}
 	wcs := []int{0, -1, 1}
 	nSeeds := r.Pick(4, 24)
 
 	add("address-derivation", 0, func(c *enum.Ctx) {
-		p := params{ver: allVersions[c.ChooseFree(len(allVersions))], seed: c.ChooseFree(nSeeds), wc: wcs[c.ChooseFree(3)], sub: subs[c.ChooseFree(4)], network: nets[c.ChooseFree(3)]}
+		p := params{ver: allVersions[c.ChooseFree(len(allVersions))], seed: c.ChooseFree(nSeeds), wc: wcs[c.ChooseFree(3)], sub: subs[c.ChooseFree(len(subs))], network: nets[c.ChooseFree(3)]}
 		c.Case([]byte(fmt.Sprintf("%+v/%v/%v", p, deref(p.sub), derefI(p.network))), true)
 		c.Sample(map[string]any{"version": p.ver.ToString(), "key_seed": p.seed, "workchain": p.wc, "sub_wallet": deref(p.sub), "network": derefI(p.network)})
 		c.Label("%s key=%d wc=%d sub=%v net=%v", p.ver.ToString(), p.seed, p.wc, deref(p.sub), derefI(p.network))
@@ -320,6 +322,11 @@ func harnesses(r *fw.Run) []fw.HarnessSpec {
 							}
 							n++
 							a, e := w.GetAddress(), effective(p)
+							// the stand-alone derivation agrees for every tuple, in whatever order the tuples are asked for
+							if g, err := wallet.GenerateWalletAddress(key(seed).Public().(ed25519.PublicKey), ver, net, wc, sub); err != nil || g != a {
+								c.Fail("address-apis-differ:sequence:"+ver.ToString(), "GenerateWalletAddress(%s) = %v,%v but New().GetAddress() = %s", e, g.ToRaw(), err, a.ToRaw())
+								return
+							}
 							if old, ok := seen[a]; ok && old != e {
 								c.Fail("address-collision:"+ver.ToString(), "different parameters give the same address %s: %s and %s", a.ToRaw(), old, e)
 								return
